@@ -1309,7 +1309,9 @@ class DesignSpace:
         # Normalization will not work with integers.
         if current_x_dtype.kind == "i":
             current_x_dtype = self.__FLOAT_DTYPE
-            recast_to_int = True
+            # The components of the float variables shall not be truncated
+            # when the current values are all given as integer arrays.
+            recast_to_int = bool(self.__integer_components.all())
 
         if out.dtype != current_x_dtype:
             out = out.astype(current_x_dtype, copy=False)
